@@ -1,6 +1,6 @@
 From AB Require Import Desc Generated GeneratedWf.
 From AB Require Import Tree TreeDefs TreeProofs TreeProofs2 TreeProofs3 TreeProofs4 TreeWF TreeWFProofs TreeRun TreeFacts.
-From AB Require Import Construct ConstructProofs ConstructWF TreeEdit TreeEditProofs TreeEditProofs2 TreeEditFacts.
+From AB Require Import Construct ConstructProofs ConstructWF TreeEdit TreeEditProofs TreeEditProofs2 TreeEditProofs3 TreeEditProofs4 TreeEditFacts.
 From Coq Require Import ZArith List Bool.
 Import ListNotations.
 
@@ -157,3 +157,65 @@ Example C05_replace_hyps_deep :
                  /\ text_of (node_toks r) = text_of (node_toks ex_open_num)
      | None => False end.
 Proof. exact ex_edit_hyps_deep. Qed.
+
+(* ---- edits on repeated fields (RepeatedNodeWrapper._insert_tokens / _del_tokens, one item) ---------------
+   insert_item root p f i seps y: at the model selected by p, item y becomes item i of the repeated field f;
+   its tokens and the separator tokens go after the previous item (placeholder when there is none), or - at
+   index 0 of a non-empty list - in front of the old first item followed by the separators. If y is hereditarily
+   well-formed, lives in the root's store, is not a File, the separators are insignificant tokens and all new
+   tokens are new objects, the result is HWF (hence WF); the root's token list gains exactly those tokens in one
+   place; no other leaf appears. *)
+Theorem C05_insert_item : forall cs, classes_ok cs -> forall root p f i seps y root',
+  HWF cs root -> insert_item root p f i seps y = Some root' ->
+  sub_ok cs (root_sid root) y -> glue_ok seps -> NoDup (ids (seps ++ node_toks y)) ->
+  (forall t t', In t (seps ++ node_toks y) -> In t' (node_toks root) -> k_id t <> k_id t') ->
+  HWF cs root' /\ WF cs root'
+  /\ (exists pre post Mnew, (Mnew = seps ++ node_toks y \/ Mnew = node_toks y ++ seps)
+        /\ node_toks root = pre ++ [] ++ post /\ node_toks root' = pre ++ Mnew ++ post)
+  /\ (forall t, In t (leaves root') -> In t (leaves root) \/ In t (seps ++ node_toks y)).
+Proof. exact insert_item_ok. Qed.
+(* remove_item (pop / __delitem__ of one item): the item leaves with the separators before it (after it when it
+   is the first of several); what remains is HWF/WF, the removed item is itself HWF, no leaf appears. *)
+Theorem C05_remove_item : forall cs, classes_ok cs -> forall root p f i x root',
+  HWF cs root -> remove_item root p f i = Some (x, root') ->
+  HWF cs root' /\ WF cs root' /\ HWF cs x /\ exempt (UNode x) = false
+  /\ (exists pre g post Mold, (Mold = g ++ node_toks x \/ Mold = node_toks x ++ g)
+        /\ node_toks root = pre ++ Mold ++ post /\ node_toks root' = pre ++ [] ++ post)
+  /\ (forall t, In t (leaves root') -> In t (leaves root)).
+Proof. exact remove_item_ok. Qed.
+(* pop(): the removed item, re-attached to a fresh store holding exactly its tokens, is a complete,
+   self-contained well-formed tree; the tree it left stays well-formed *)
+Theorem C05_pop_selfcontained : forall cs, classes_ok cs -> forall root p f i x root' fresh_store,
+  HWF cs root -> remove_item root p f i = Some (x, root') -> conforms cs x = true ->
+  let x' := reattach cs fresh_store x in
+  HWF cs x' /\ WF cs x' /\ whole_store x' (node_toks x)
+  /\ (forall s, In s (sids x') -> s = fresh_store)
+  /\ leaves x' = leaves x
+  /\ HWF cs root' /\ WF cs root'.
+Proof. exact pop_selfcontained. Qed.
+
+(* ---- histories: any sequence of (replace a sub-tree by a re-attached donor | insert a re-attached donor as
+   an item | remove an item), at any paths, keeps the tree well-formed. A donor is a free-standing HWF,
+   conforming tree that is not a File; its tokens (and the separators) are new to the tree. *)
+Theorem C05_edit_step : forall cs, classes_ok cs -> forall a b, HWF cs a -> edit cs a b -> HWF cs b.
+Proof. exact edit_HWF. Qed.
+Theorem C05_history : forall cs, classes_ok cs -> forall a b, HWF cs a -> edits cs a b -> HWF cs b /\ WF cs b.
+Proof. exact history_HWF. Qed.
+(* the hypotheses are met: `USD, EUR` -> pop(0) -> `EUR` -> insert(1, fresh copy of USD) -> `EUR, USD` *)
+Example C05_item_hyps :
+  match ex_popped with
+  | Some (x, r) =>
+      hwf_b all_classes r = true /\ hwf_b all_classes x = true /\ conforms all_classes x = true
+      /\ hwf_b all_classes (clone all_classes 0 ex_fresh x) = true
+      /\ exempt (UNode (clone all_classes 0 ex_fresh x)) = false
+      /\ forallb (fun t => negb (significant t)) ex_seps = true
+      /\ ids_nodup_b (ex_seps ++ node_toks (clone all_classes 0 ex_fresh x)) = true
+      /\ forallb (fun t => forallb (fun t' => negb (k_id t =? k_id t')%Z) (node_toks r))
+                 (ex_seps ++ node_toks (clone all_classes 0 ex_fresh x)) = true
+      /\ length (node_toks r) = (length (node_toks ex_open_num) - 3)%nat
+  | None => False end
+  /\ match ex_reinserted with
+     | Some r2 => hwf_b all_classes r2 = true /\ conforms all_classes r2 = true
+                  /\ length (node_toks r2) = length (node_toks ex_open_num)
+     | None => False end.
+Proof. exact ex_item_hyps. Qed.
